@@ -63,7 +63,9 @@ CLAIMS['C19'] = dict(
     '(level-sorted fresh snapshot; pre-pass snapshot re-resolved through '
     '.children), marking conditions are the exact non-strict complements of '
     'the window in monomial normal form, each list flows to the refinement '
-    'of its axis, the sweep repeats while anything is marked.  Decides '
+    'of its axis, the sweep repeats while anything is marked (no counted '
+    'loop around it, no quantity foreign to h_t, h_x, K, sigma in the '
+    'window test).  Decides '
     '"without error" w.r.t. stale handles and "every leaf in the window on '
     'exit"; termination is not decided.',
     design_ref='DESIGN.md section 3 E6 (R-stale, R-window), section 4 C19',
@@ -197,7 +199,8 @@ CLAIMS['C07'] = dict(
     'falling off evaluate_exact; grading end of every 1-D log rule '
     '(in-element split, nearer-end selection with seam-aware distances, '
     'tabulated mirrored/plain points); closed-form routing entails a '
-    'straight piece.  Accuracy classes (1e-8 / 5e-4 / 2e-3) not decided.',
+    'straight piece; evaluate_vector passes time and parameter through '
+    'unchanged, entry j for leaf j.  Accuracy classes (1e-8 / 5e-4 / 2e-3) not decided.',
     design_ref='DESIGN.md section 3 E2/E3/E4 (R-grading-end), section 4 C07',
     note='Trusted: ast, sympy, linear fact domain.  Not decided: accuracy '
     'of the fixed log rule near the element.',
@@ -285,8 +288,9 @@ CLAIMS['C18'] = dict(
     'glue iff closed, half-open root piece assignment, inheritance to '
     'children and virtual children, single ownership of gamma_space; the '
     'closed-curve guard depends only on the per-slab count, fires exactly '
-    'below three and bisects twice.  Arbitrary user polygons are run-time '
-    'checked by the constructor and not decided.',
+    'below three and bisects twice; a polygon declared closed is compared '
+    'exactly, first against last vertex.  Arbitrary user polygons are '
+    'otherwise run-time checked by the constructor and not decided.',
     design_ref='DESIGN.md section 3 E2 (K9), E6 (R-slabcount), section 4 '
     'C18',
     note='Trusted: ast, sympy.  Assumes user grids contain the break '
@@ -300,7 +304,8 @@ CLAIMS['C16'] = dict(
     'conversion -- the recorded defect F2); symbolic geometry of children '
     'and root meshes; midpoint sharing, registration of edges and parent '
     'edges; balance closure shape with level exactly one less; leaf '
-    'bookkeeping; the normalisation / containment / coincidence / descent '
+    'bookkeeping (a fresh vertex is appended at once, so idx = position); '
+    'the normalisation / containment / coincidence / unbounded descent '
     'structure of the boundary search and unique vertex lookup.  '
     'Termination for all dyadic segments depends on numeric tolerances and '
     'is not decided.',
